@@ -67,6 +67,10 @@ def probe(kind: str, tier: str):
     if kind == "nonbool_in_choice":
         ch = Choice(prompt="c", children=[Cfg("M1", "bool", prompt="m1"), If(cond=S("M1"), children=[Cfg("P", "int", prompt="p", defaults=[(L("5"), None)])]), Cfg("M2", "bool", prompt="m2")])
         return [ch], {"P": ["7", "5"], "M2": ["y"], "M1": ["y"]}, ["CONFIG_OLD_P CONFIG_P"]
+    if kind == "nonbool_direct_in_choice":
+        # an int / string option placed directly in a choice block (no implicit sub-menu): Symbol.choice is set for it
+        ch = Choice(prompt="c", children=[Cfg("M1", "bool", prompt="m1"), Cfg("P", "int", prompt="p", defaults=[(L("5"), None)]), Cfg("M2", "bool", prompt="m2"), Cfg("PS", "string", prompt="ps", defaults=[(L('"d"'), None)])])
+        return [ch], {"P": ["7", "5"], "M2": ["y"], "PS": ["u"]}, ["CONFIG_OLD_P CONFIG_P"]
     if kind == "float_noncanonical":
         src = Cfg("SRC", "bool", prompt="src", wsets=[("P", L("5"), None)], sets=[("P2", L("2.50"), None)])
         return [Cfg("P", "float", prompt="p", defaults=[(L("1e2"), None)]), Cfg("P2", "float", prompt="p2", defaults=[(L("7"), None)]), Cfg("P3", "float", defaults=[(L("3"), S("SRC")), (L("0.10"), None)]), src], {"SRC": ["y", "n"], "P": ["5", "100"], "P2": ["2.5"]}, ["CONFIG_OLD_P CONFIG_P"]
@@ -79,7 +83,7 @@ def probe(kind: str, tier: str):
     raise ValueError(kind)
 
 
-PROBES = ("string", "hex", "float", "int_range", "bool", "choice3", "set_target", "wset_target", "promptless_before", "multi_def", "select_imply", "nonbool_in_choice", "float_noncanonical", "hex_int_indirect")
+PROBES = ("string", "hex", "float", "int_range", "bool", "choice3", "set_target", "wset_target", "promptless_before", "multi_def", "select_imply", "nonbool_in_choice", "nonbool_direct_in_choice", "float_noncanonical", "hex_int_indirect")
 CONTEXTS = ("plain", "prompt_if_before", "prompt_if_after", "depends", "menu_depends", "menu_visible", "if", "comment_menu", "pragma_like_titles")
 
 
@@ -172,6 +176,11 @@ def _rename(nodes: List[Any], ren: Dict[str, str]) -> None:
             n.prompt_cond = rx(n.prompt_cond)
             n.defaults = [(ren.get(t, t), rx(c)) for t, c in n.defaults]
             n.depends = [rx(d) for d in n.depends]
+        elif n.kind == "if":
+            n.cond = rx(n.cond)
+        elif n.kind == "menu":
+            n.depends = [rx(d) for d in n.depends]
+            n.visible_if = [rx(d) for d in n.visible_if]
 
 
 def items(tier: str, seed: int):
